@@ -180,6 +180,7 @@ def run_session(scenario, schedule, clients=None, fault=None, kernel_hook=None, 
     net = O.Network(split=scenario.get('split'))
     kernel = Kernel(schedule if callable(schedule) else make_chooser(schedule), max_steps=max_steps)
     kernel.keep_log = keep_log
+    kernel.eager_timeouts = bool(schedule.get('eager', True)) if isinstance(schedule, dict) else bool(getattr(schedule, 'eager', True))
     if kernel_hook is not None:
         kernel_hook(kernel)
     res = Result()
